@@ -529,6 +529,10 @@ func mutateIdentity(chain []*verSpec, i int, m string) []*verSpec {
 		v.fields["pub_keys"] = []string{"-----BEGIN PGP PUBLIC KEY BLOCK-----\n\nAAAA\n-----END PGP PUBLIC KEY BLOCK-----"}
 	case "keys_wrongtype":
 		v.fields["pub_keys"] = "key"
+	case "keys_null":
+		v.fields["pub_keys"] = []interface{}{nil}
+	case "keys_number":
+		v.fields["pub_keys"] = []interface{}{7}
 	case "merge_commit":
 		side := validVersion("side", 1)
 		chain = append(chain, side)
